@@ -1307,6 +1307,13 @@ def hv_ident(prog: Program) -> RuleResult:
     return r
 
 
+def _ident_dedup(prog):
+    # 'value-equal but distinct objects': nothing on the way from the domains to the results decides "seen already" with the user's __eq__
+    from .c11 import ident_dedup
+
+    return ident_dedup(prog)
+
+
 def _ep_bound(prog):
     # a value that is bound already is used as it is, whatever it is: re-enumerating it (a falsy element of a flattened collection taken
     # for 'not bound') gives rows that are no consistent assignment
@@ -1340,4 +1347,4 @@ def run(prog: Program, tier: str) -> List[RuleResult]:
     from .c03 import domain_cache
 
     _cache.clear()
-    return [guard(lambda: ep_thread(prog)), guard(lambda: ep_neg(prog)), guard(lambda: ep_filter(prog)), guard(lambda: ep_selected(prog)), guard(lambda: ep_union_pass(prog)), guard(lambda: ep_operand(prog)), guard(lambda: domain_cache(prog)), guard(lambda: ep_universal(prog)), guard(lambda: ep_empty(prog)), guard(lambda: ep_quant(prog)), guard(lambda: _ep_bound(prog)), guard(lambda: cmp_apply(prog)), guard(lambda: _live_iter(prog)), guard(lambda: _hv_truth(prog)), guard(lambda: cond_fold(prog)), guard(lambda: _domain_given(prog)), guard(lambda: hv_ident(prog))]
+    return [guard(lambda: ep_thread(prog)), guard(lambda: ep_neg(prog)), guard(lambda: ep_filter(prog)), guard(lambda: ep_selected(prog)), guard(lambda: ep_union_pass(prog)), guard(lambda: ep_operand(prog)), guard(lambda: domain_cache(prog)), guard(lambda: ep_universal(prog)), guard(lambda: ep_empty(prog)), guard(lambda: ep_quant(prog)), guard(lambda: _ep_bound(prog)), guard(lambda: cmp_apply(prog)), guard(lambda: _live_iter(prog)), guard(lambda: _hv_truth(prog)), guard(lambda: cond_fold(prog)), guard(lambda: _domain_given(prog)), guard(lambda: hv_ident(prog)), guard(lambda: _ident_dedup(prog))]
